@@ -53,6 +53,16 @@ Definition claims (x : state) : list nat :=
 (* I3b: a job is claimed by at most one AGV *)
 Definition claims_b (x : state) : bool := nodup_nat (claims x).
 
+(* C01 side condition: a transition into TRANSIT never takes a job one of whose operations is in process
+   (read in the post-state: transport handlers do not touch operation records) *)
+Definition transit_side_b (tr : transition) (y : state) : bool :=
+  match tr_new tr, tr_job tr with
+  | NT TTransit, Some j => match nth_error (s_jobs y) j with
+                           | Some jb => negb (is_job_running jb)
+                           | None => true end
+  | _, _ => true
+  end.
+
 Section WithInst.
 Variable i : inst.
 
@@ -212,12 +222,18 @@ Definition agv_phase_b (x : state) : bool :=
                     | TWorking => false
                     end) (s_trans x).
 
+(* the states the compiler produces: nothing started, machines idle and empty, records routed as configured *)
+Definition fresh_b (x : state) : bool :=
+  forallb (fun jb => forallb (is_ostate OIdle) (j_ops jb)) (s_jobs x)
+  && forallb (fun ms => mstate_eqb (m_st ms) MIdle && is_nil (b_store (m_in ms))) (s_machs x)
+  && forallb2 (fun jb cs => forallb2 op_machine_ok (j_ops jb) cs) (s_jobs x) (i_jobs i).
+
 (* the clause vector the monitors print, in this order *)
 Definition clause_vector (x : state) : list bool :=
   [ placement_b x; loc_b x; mach_hold_b x; agv_hold_b x; claims_b x; capacity_b x; flags_b x;
     feasible_b x; no_overdue_b x; past_b x; busy_op_b x; proc_inner_b x; output_done_b x;
-    outages_b x; outage_nonneg_b x; agv_phase_b x; idle_unclaimed_b x; sto_ok_b x ].
+    outages_b x; outage_nonneg_b x; agv_phase_b x; idle_unclaimed_b x; sto_ok_b x; fresh_b x ].
 
 End WithInst.
 
-Definition clause_names : list nat := seq0 18.
+Definition clause_names : list nat := seq0 19.
